@@ -319,7 +319,7 @@ def handleLirRun (hexText : String) (tuples : List (List String)) : String :=
               let cres : String :=
                 -- hypothesis of `cg_preserves_partial` / `mir_to_code_partial`: no call assigns the result of a
                 -- function that returns nothing (checked on the LIR of every program)
-                if !C01Cg.callsOk L then "calls-not-ok" else
+                if !C01Cg.callsOk L || !C01Cg.namesOk P then "calls-not-ok" else
                 match C01Cg.cgProg L, vs'.mapM C01MirRun.cvOf with
                 | some C, some cs =>
                   match C01Cg.cRun C 4000 "main" cs with
